@@ -4,9 +4,13 @@ Theorems: lean/SkoolVerif/Props/C19.lean.  Ties: translator (cmiosimulator.py cl
 slot; hand model Model/Contend.lean vs DELAYS_48K/128K (all 69888 + 70908 entries, every run),
 contend_* and io_contention_* (random patterns).  E2E oracle on the real code: contended vs plain
 simulator on the same state (Python and C)."""
+import os
+import sys
+
 import simcorr
 import simgen
-from framework import fresh_import
+from framework import fresh_import, load_known, REPO, VERIF, LeanLock
+from indep import z80bus
 from simcheck import single_step, build_impls, t_bias
 
 PROPS = 'SkoolVerif.Props.C19'
@@ -169,7 +173,9 @@ def cmio_vs_plain(chk, impls):
                 ra, rb = list(map(int, a[0].split())), list(map(int, b[0].split()))
                 fa, fb = list(map(int, a[1].split())), list(map(int, b[1].split()))
                 bad = None
-                fmask = 0xD7 if (tbl == 'CB' and op in BIT_HL) else 0xFF
+                # a state generated for MAIN slot CB executes a CB-page instruction: BIT n,(HL) is recognised by the bytes at PC
+                bit_hl = (tbl == 'CB' and op in BIT_HL) or (tbl == 'MAIN' and op == 0xCB and st[2].get((st[1][0] + 1) % 65536, 0) in BIT_HL)
+                fmask = 0xD7 if bit_hl else 0xFF
                 if [v for i, v in enumerate(ra) if i != 1] != [v for i, v in enumerate(rb) if i != 1] or (ra[1] & fmask) != (rb[1] & fmask):
                     bad = ('registers-differ', f'{ra} vs {rb}')
                 elif (fa[0], fa[2], fa[3], fa[4]) != (fb[0], fb[2], fb[3], fb[4]):
@@ -191,22 +197,278 @@ def cmio_vs_plain(chk, impls):
                                   {'kind': 'pair', 'pair': [plain, cont], 'state': [st[0], st[1], {str(k2): v for k2, v in st[2].items()}, st[3], st[4]], 'slot': [tbl, op]})
 
 
+
+# ---------------------------------------------------------------------------------------------
+# "each extra delay equals the documented pattern": independent bus-cycle oracle (harness/indep/z80bus.py)
+# against the real contended simulators, and against the Lean specification Spec/Z80Bus.lean.
+
+OTIR_KEY = 'bus-delay-otir-repeat-bc'
+HI_BOUND = (0x00, 0x01, 0x3F, 0x40, 0x41, 0x7F, 0x80, 0x81, 0xBF, 0xC0, 0xC1, 0xFE, 0xFF)
+BLOCK_IO = {0xA2, 0xA3, 0xAA, 0xAB, 0xB2, 0xB3, 0xBA, 0xBB}
+PORT_SLOTS = {('MAIN', 0xD3), ('MAIN', 0xDB)} | {('ED', 0x40 + 8 * y + z) for y in range(8) for z in (0, 1)} | {('ED', o) for o in BLOCK_IO}
+
+
+def regen_bus(chk):
+    """simgen.regen + the C19 per-closure family Gen/CmioBusThms.lean (translate/gen_busdelay.py)."""
+    ok = simgen.regen(chk)
+    import importlib
+    sys.path.insert(0, os.path.join(VERIF, 'translate'))
+    if 'gen_busdelay' in sys.modules:
+        importlib.reload(sys.modules['gen_busdelay'])
+    import gen_busdelay
+    try:
+        text = gen_busdelay.gen(REPO)
+    except Exception as e:
+        if ok:
+            chk.breaks.append({'kind': 'translator', 'name': 'gen_busdelay.gen -> Gen/CmioBusThms.lean', 'detail': f'{type(e).__name__}: {e}'})
+        return False
+    with LeanLock():
+        if chk.write_gen(os.path.join('SkoolVerif', 'Gen', 'CmioBusThms.lean'), text):
+            chk.note('regenerated (source changed): CmioBusThms.lean')
+    chk.extra['generated_files'] = sorted(set(chk.extra.get('generated_files', [])) | {'CmioBusThms.lean'})
+    return ok
+
+
+class BusRunner:
+    """One real simulator on a 48K list or a 128K paged memory, reused across states (cells touched by a
+    state or by the instruction are zeroed before the next one)."""
+
+    def __init__(self, cls, machine, o7, pagingtracer, simutils):
+        if machine == '48K':
+            mem = [0] * 65536
+        else:
+            mem = pagingtracer.Memory(out7ffd=o7)
+            mem.roms = ([0] * 0x4000, [0] * 0x4000)     # code may be placed in the ROM area
+            mem.out7ffd(o7)
+        self.sim = simutils.from_memory(cls, mem)
+        self.mem = self.sim.memory
+        self.dirty = set()
+
+    def step(self, regs, fields, mem, touched):
+        m = self.mem
+        for a in self.dirty:
+            m[a] = 0
+        self.dirty = set(mem) | touched
+        for a, v in mem.items():
+            m[a] = v
+        r = self.sim.registers
+        for i, v in enumerate(regs):
+            r[i] = v
+        for i, v in enumerate(fields):
+            r[24 + i] = v
+        self.sim.run(fields[0])
+        return r[25]
+
+
+def frame_positions(rng, machine):
+    """Frame positions covering every phase of the 8 T-state pattern on the first and last display lines,
+    the window edges t0 = first - 23 and t1, the border part of a line, and later frames."""
+    first, line, frame = z80bus.LAYOUT[machine]
+    last = first + 191 * line
+    k = rng.randrange(10)
+    if k == 0:
+        t = first + rng.randrange(-30, 136)                # first line, incl. t0 .. first
+    elif k == 1:
+        t = last + rng.randrange(-8, 136)                  # last line, incl. t1 = last + 126
+    elif k == 2:
+        t = first - 23 + rng.randrange(-3, 4)              # t0
+    elif k == 3:
+        t = last + 126 + rng.randrange(-24, 4)             # t1
+    elif k == 4:
+        t = first + line * rng.randrange(192) + rng.randrange(120, 136)   # end of the fetch part of a line
+    elif k == 5:
+        t = rng.randrange(frame)
+    else:
+        t = first + line * rng.randrange(192) + rng.randrange(128)
+    return t + frame * rng.choice((0, 0, 0, 1, 3))
+
+
+def place16(rng):
+    """A 16-bit value in one of the four 16K regions, biased to the region edges."""
+    base = rng.choice((0x0000, 0x4000, 0x8000, 0xC000))
+    return (base + rng.choice((0, 1, 2, 3, 0x3FFC, 0x3FFD, 0x3FFE, 0x3FFF, rng.randrange(0x4000), rng.randrange(0x4000)))) & 0xFFFF
+
+
+def bus_state(rng, tbl, op, machine, directed=None):
+    """State with the slot's bytes at PC; PC, (HL)/(IX+d)/(nn)/stack operands, I and the port high byte each
+    placed in ROM / 0x4000-0x7FFF / 0x8000-0xBFFF / 0xC000-0xFFFF; boundary loop counters."""
+    regs = [rng.choice(simcorr.BOUND8 + (rng.randrange(256),) * 3) for _ in range(24)]
+    regs[13] = 0
+    for hi, lo in ((2, 3), (4, 5), (6, 7), (8, 9), (10, 11)):
+        v = place16(rng)
+        regs[hi], regs[lo] = v >> 8, v & 255
+    regs[12] = place16(rng)
+    regs[14] = rng.choice(HI_BOUND)                        # I: region of the refresh address
+    regs[0] = rng.choice(HI_BOUND + (rng.randrange(256),))  # A: high byte of IN A,(n) / OUT (n),A
+    if (tbl, op) in PORT_SLOTS or (tbl == 'MAIN' and op == 0x10) or (tbl == 'ED' and op & 0xC4 == 0x80):
+        regs[2] = rng.choice(HI_BOUND + (0x02,))          # B: port high byte / loop counter
+        regs[3] = rng.choice((0x00, 0x01, 0xFE, 0xFF, 0xFD, rng.randrange(256)))
+        if tbl == 'ED' and op in (0xB0, 0xB1, 0xB8, 0xB9) and rng.randrange(2):
+            bc = rng.choice((0, 1, 2, 0x100, 0x101, 0xFFFF))
+            regs[2], regs[3] = bc >> 8, bc & 255
+    pc = place16(rng)
+    code = simcorr.slot_bytes(tbl, op, rng)
+    if len(code) >= 3 and rng.randrange(2):                # nn operand: region-placed too
+        nn = place16(rng)
+        code[-2], code[-1] = nn & 255, nn >> 8
+    if directed:
+        hi, lo = directed
+        regs[2], regs[3], regs[0] = hi, lo, hi
+        if tbl == 'MAIN':
+            code[1] = lo
+    t = frame_positions(rng, machine)
+    if directed:
+        first, line, _ = z80bus.LAYOUT[machine]
+        t = first + line * rng.randrange(1, 191) + rng.randrange(100)
+    halted = rng.randrange(2) if (tbl, op) == ('MAIN', 0x76) else 0
+    fields = [pc, t, rng.randrange(2), rng.randrange(3), halted, rng.randrange(65536)]
+    mem = {}
+    for k, b in enumerate(code):
+        mem[(pc + k) & 0xFFFF] = b
+    hl = regs[7] + 256 * regs[6]
+    mem.setdefault(hl, rng.choice((regs[0], rng.randrange(256))))   # CPIR: A = (HL) or not
+    return regs, fields, mem
+
+
+def sweep_state(rng, tbl, op, machine, phase, base):
+    """Every address the instruction can put on the bus inside one contended 16K region (away from its edges),
+    started at the given phase of the 8 T-state pattern on a random display line: any change of order, length or
+    address within a pattern shows in the total."""
+    regs = [rng.randrange(256) for _ in range(24)]
+    regs[13] = 0
+    inside = lambda: base + rng.randrange(0x0200, 0x3E00)
+    for hi, lo in ((2, 3), (4, 5), (6, 7), (8, 9), (10, 11)):
+        v = inside()
+        regs[hi], regs[lo] = v >> 8, v & 255
+    regs[12] = inside()
+    regs[14] = regs[0] = inside() >> 8
+    if rng.randrange(4) == 0:
+        regs[2] = rng.choice((1, 2))                      # loop ends / goes on
+    pc = inside()
+    code = simcorr.slot_bytes(tbl, op, rng)
+    if len(code) >= 3:
+        nn = inside()
+        code[-2], code[-1] = nn & 255, nn >> 8
+        if len(simcorr.PREFIXES[tbl]) == 1 and tbl != 'CB':
+            code[2] = rng.randrange(256)                  # displacement of (IX+d) keeps IX+d inside the region
+    first, line, _ = z80bus.LAYOUT[machine]
+    t = first + line * rng.randrange(1, 191) + 8 * rng.randrange(15) + phase
+    fields = [pc, t, rng.randrange(2), rng.randrange(3), rng.randrange(2) if (tbl, op) == ('MAIN', 0x76) else 0, rng.randrange(65536)]
+    mem = {}
+    for k, b in enumerate(code):
+        mem[(pc + k) & 0xFFFF] = b
+    return regs, fields, mem
+
+
+def bus_case(runners, impl, machine, o7, regs, fields, mem):
+    """(T contended - T plain, oracle delay with SkoolKit's OTIR reading, with the documented one, cycles)"""
+    rd = lambda a: mem.get(a & 0xFFFF, 0)
+    cyc = z80bus.cycles(rd, regs, fields[0], bool(fields[4]), otir='pre')
+    doc = z80bus.cycles(rd, regs, fields[0], bool(fields[4]), otir='post')
+    touched = {c[1] for c in cyc if c[0] == 'M'} | {(c[1] + 1) & 0xFFFF for c in cyc if c[0] == 'M'}
+    frame = z80bus.LAYOUT[machine][2]
+    tp = runners[impl + '-plain'].step(regs, fields, mem, touched)
+    tc = runners[impl + '-cmio'].step(regs, fields, mem, touched)
+    tm = fields[1] % frame
+    return tc - tp, z80bus.delay(machine, o7, tm, cyc), z80bus.delay(machine, o7, tm, doc), cyc, tp - fields[1]
+
+
+def bus_delay_oracle(chk, classes, pagingtracer, simutils, lean_ok=True, only=None):
+    """T_contended = T_plain + oracle delay, exactly, on both real contended simulators: all 1792 slots x
+    boundary-biased states x frame positions x address placements x port classes, 48K and 128K (even and odd
+    bank at 0xC000, paging locked so that OUTs cannot remap the C simulator)."""
+    rng = chk.rng
+    cls = dict(classes)
+    known = load_known(chk.pid)
+    # banks 5 and 2 are also mapped at 0x4000 / 0x8000: paged at 0xC000 they alias the state's own cells, so they are not used here
+    configs = [('48K', 0), ('128K', 0x20), ('128K', 0x21)] + ([('128K', 0x27), ('128K', 0x24), ('128K', 0x23)] if chk.thorough else [])
+    n = chk.scale(3, 40)
+    otir_diff = []
+    lean_ops, lean_want = [], []
+    for machine, o7 in configs:
+        runners = {name: BusRunner(cls[name], machine, o7, pagingtracer, simutils) for name in ('py-plain', 'py-cmio', 'c-plain', 'c-cmio')}
+        if only:
+            regs, fields, mem = only['state']
+            if (machine, o7) != tuple(only['config']):
+                continue
+            got, want, _, cyc, _ = bus_case(runners, only['impl'], machine, o7, regs, fields, {int(k): v for k, v in mem.items()})
+            return got != want
+        first, line, frame = z80bus.LAYOUT[machine]
+        for tbl, op in simcorr.all_slots():
+            states = [bus_state(rng, tbl, op, machine) for _ in range(n)]
+            if machine == '48K' or o7 & 1:
+                # everything contended x each of the 8 phases, every run
+                states += [sweep_state(rng, tbl, op, machine, ph, 0xC000 if machine == '128K' and (ph + op) % 2 else 0x4000) for ph in range(8)]
+            if (tbl, op) in PORT_SLOTS:
+                # port classes, every run: high byte on each region boundary x low bit, inside the display
+                for hi in HI_BOUND if (chk.thorough or op in BLOCK_IO) else HI_BOUND[2::3]:
+                    for lo in (0xFE, 0xFF):
+                        states.append(bus_state(rng, tbl, op, machine, directed=(hi, lo)))
+            for regs, fields, mem in states:
+                for impl in ('py', 'c'):
+                    got, want, want_doc, cyc, dur = bus_case(runners, impl, machine, o7, regs, fields, mem)
+                    chk.case(f'bus-delay:{impl}:{machine}', (impl, machine, o7, tbl, op, tuple(regs), tuple(fields)),
+                             {'impl': impl + '-cmio', 'machine': machine, 'o7ffd': o7, 'slot': f'{tbl}:{op:02X}', 't': fields[1],
+                              'cycles': [list(c) for c in cyc], 'delay': want} if (op, impl) == (0x34, 'py') and tbl == 'MAIN' and want else None)
+                    if dur != z80bus.duration(cyc):
+                        chk.violation(f'bus-cycles-total:{impl}-plain:{tbl}:{op:02X}',
+                                      f'{impl}-plain {machine} slot {tbl} {op:02X}: took {dur} T-states, the documented cycles add up to {z80bus.duration(cyc)}',
+                                      {'kind': 'bus', 'impl': impl, 'config': [machine, o7], 'state': [regs, fields, {str(k): v for k, v in mem.items()}], 'slot': [tbl, op]})
+                    elif got != want:
+                        chk.violation(f'bus-delay:{impl}-cmio:{tbl}:{op:02X}',
+                                      f'{impl}-cmio {machine} (7ffd={o7:#x}) slot {tbl} {op:02X} at T={fields[1]} PC={fields[0]:#06x}: contended - plain = {got} T-states, '
+                                      f'documented pattern {" ".join(f"{c[1]:04X}:{c[2]}" if c[0] == "M" else f"IO({c[1]:04X})" for c in cyc)} gives {want}',
+                                      {'kind': 'bus', 'impl': impl, 'config': [machine, o7], 'state': [regs, fields, {str(k): v for k, v in mem.items()}], 'slot': [tbl, op]})
+                    elif want_doc != got:
+                        otir_diff.append((impl, machine, o7, tbl, op, regs, fields, got, want_doc))
+                # Lean specification vs this oracle (a sample of the same states)
+                if len(lean_ops) < chk.scale(6000, 60000) and rng.randrange(3) == 0:
+                    t0 = first - 23
+                    t1 = first + 191 * line + 126
+                    lean_ops.append(simcorr.op_line(regs, fields, mem, [], [0, 0, 0, 0], frame=frame, int_active=32, t0=t0, t1=t1,
+                                                    is128=int(machine == '128K'), o7ffd=o7))
+                    lean_want.append(f'{z80bus.duration(cyc)} {want} {want_doc}')
+    if lean_ops and lean_ok:
+        out = chk.run_driver('Bus', lean_ops)
+        if out is not None:
+            got = []
+            for l in out:
+                parts = l.split(';')
+                f = parts[1].split() if len(parts) == 6 else []
+                got.append(f'{f[0]} {f[1]} {f[5]}' if len(f) == 6 else l[:80])
+            chk.compare('Spec/Z80Bus.lean (cycle total, busDelay skoolkit / documented reading) vs harness/indep/z80bus.py', lean_ops, lean_want, got)
+    if otir_diff:
+        impl, machine, o7, tbl, op, regs, fields, got, want_doc = otir_diff[0]
+        msg = (f'{OTIR_KEY}: {len(otir_diff)} cases where a repeating OTIR/OTDR takes the delay of the pre-decrement BC during its five repeat cycles '
+               f'(documented reading: BC after B was decremented, as for the port of the same instruction): e.g. {impl}-cmio {machine} (7ffd={o7:#x}) '
+               f'ED {op:02X} B={regs[2]:#04x} C={regs[3]:#04x} T={fields[1]} PC={fields[0]:#06x}: contended - plain = {got}, documented reading gives {want_doc}')
+        if OTIR_KEY in known:
+            chk.violation(OTIR_KEY, msg, {'kind': 'bus-otir', 'impl': impl, 'config': [machine, o7], 'state': [regs, fields, {}], 'slot': [tbl, op]})
+        else:
+            chk.note(msg + ' [observation, not raised: see Props/C19 otir_repeat_cycles_differ]')
+    chk.extra['otir_repeat_bc_cases'] = len(otir_diff)
+    return False
+
+
 def run(chk):
     chk.rule = ('delay tables: all 69888 + 70908 entries (exhaustive); contend/io_contention: random patterns over boundary addresses, '
                 'even/odd banks; single-step: all 1792 slots x states biased to the 8 phases of the pattern on the first/last display lines and '
                 'window edges, Python and C contended simulators vs the generated model; e2e: contended vs plain on identical states incl. a '
-                'stream where no bus address is contended. non-trivial = distinct (pair, slot, state)')
+                'stream where no bus address is contended; bus-delay oracle: all 1792 slots x states with PC / operand / stack / I / port-high-byte placed in each 16K region '
+                '(edges biased) x frame positions over every phase of the 8-T pattern on the first/last display lines, t0/t1 and later frames x 48K / 128K even / 128K odd bank, '
+                'Python and C contended simulators: T_contended = T_plain + delay of the independent documented-pattern oracle, exactly. non-trivial = distinct (pair, slot, state)')
     chk.trusted += ['translator translate/py2lean.py (validated per slot each run)',
                     'hand model Model/Contend.lean tied exhaustively (tables) / by correspondence (fold functions)',
-                    'C CPATTERN blocks: differential execution only']
-    chk.assumptions += ['the per-instruction cycle breakdown has no second machine-readable source: it is tied between the Python and C copies '
-                        '(per-slot differential at all phases) and bounded by theorem (never fewer T-states; none outside the window; none when uncontended) '
-                        'but not proved against documentation',
+                    'C CPATTERN blocks: differential execution and the bus-delay oracle (exact T-state equality with the documented pattern), no theorem',
+                    'harness/indep/z80bus.py: independent Python statement of the documented per-instruction cycle breakdown (tied to Spec/Z80Bus.lean by correspondence every run)']
+    chk.assumptions += ['the per-instruction cycle breakdown is proved against Spec/Z80Bus.lean, written from the documented contention tables (as recalled: no network access to '
+                        're-read them); the one entry where code and documentation differ (five repeat cycles of OTIR/OTDR: pre- vs post-decrement BC) is proved under the '
+                        'variant `skoolkit` and set aside by hypothesis in `delay_equals_documented_pattern`; HALT while halted is modelled as SkoolKit does (PC+1 refetched)',
                         'per-instruction theorem covers every closure: BIT n,(HL) with F bits 5/3 uncompared (they come from MEMPTR), HALT and LD A,I/R under the frame layout CfgOk '
                         '(proved for both machine configurations); the multi-step theorem excludes runs that execute those three closures (their effect depends on T/MEMPTR): e2e oracle only']
     cmio, pagingtracer, simutils = fresh_import('skoolkit.cmiosimulator', 'skoolkit.pagingtracer', 'skoolkit.simutils')
-    gen_ok = simgen.regen(chk)
-    ok = chk.lake_build([PROPS, 'SkoolVerif.Prelude.SimProto', 'SkoolVerif.Gen.CmioHandlers', 'SkoolVerif.Model.Contend']) if gen_ok else False
+    gen_ok = regen_bus(chk)
+    ok = chk.lake_build([PROPS, 'SkoolVerif.Prelude.SimProto', 'SkoolVerif.Gen.CmioHandlers', 'SkoolVerif.Model.Contend', 'SkoolVerif.Spec.Z80Bus']) if gen_ok else False
     chk.audit(PROPS)
     if chk.thorough and ok:
         chk.leanchecker([PROPS])
@@ -218,11 +480,20 @@ def run(chk):
     if gen_ok and ok:
         single_step(chk, [i for i in impls if 'cmio' in i[0]])
     cmio_vs_plain(chk, impls)
+    bus_delay_oracle(chk, classes, pagingtracer, simutils, lean_ok=bool(gen_ok and ok))
     chk.exhaustive = False
 
 
 def replay(chk, data):
     cmio, pagingtracer = fresh_import('skoolkit.cmiosimulator', 'skoolkit.pagingtracer')
+    if data['kind'] in ('bus', 'bus-otir'):
+        (simutils,) = fresh_import('skoolkit.simutils')
+        impls, classes = build_impls(chk)
+        if data['kind'] == 'bus-otir':
+            n0 = len(chk.violations)
+            bus_delay_oracle(chk, classes, pagingtracer, simutils, lean_ok=False)
+            return len(chk.violations) > n0
+        return bus_delay_oracle(chk, classes, pagingtracer, simutils, lean_ok=False, only=data)
     if data['kind'] == 'nop':
         (simutils,) = fresh_import('skoolkit.simutils')
         cmio, pagingtracer = fresh_import('skoolkit.cmiosimulator', 'skoolkit.pagingtracer')
@@ -241,4 +512,9 @@ def replay(chk, data):
     plain, cont = data['pair']
     a = wr[plain].step(regs, fields, mem, ins, tracers)
     b = wr[cont].step(regs, fields, mem, ins, tracers)
-    return a.split(';')[0] != b.split(';')[0] or int(b.split(';')[1].split()[1]) < int(a.split(';')[1].split()[1])
+    ra, rb = list(map(int, a.split(';')[0].split())), list(map(int, b.split(';')[0].split()))
+    pc = fields[0]
+    if mem.get(pc, 0) == 0xCB and mem.get((pc + 1) % 65536, 0) in BIT_HL:
+        ra[1] &= 0xD7                                     # BIT n,(HL): bits 5 and 3 come from MEMPTR (exempt)
+        rb[1] &= 0xD7
+    return ra != rb or int(b.split(';')[1].split()[1]) < int(a.split(';')[1].split()[1])
